@@ -44,9 +44,25 @@ package proof
 // secp256k1 public-key recovery (go-ethereum crypto): assumed
 //@ func recoverETHAddress
 //@ trusted
-// time encoding (protobuf): assumed
+// varint and field-key encodings: abstract functions of their arguments
+//@ func encodeUvarint
+//@ pure
+//@ trusted
+//@ func encodeFieldNumberAndTyp3
+//@ pure
+//@ trusted
+// C12: the canonical protobuf encoding of a timestamp that the validator signed: field 1 (seconds) only when the seconds
+// are non-zero, field 2 (nanos) only when the NANOS are non-zero - each guard on its own field (a whole-second timestamp
+// has no nanos field; encoding "nanos: 0" explicitly gives bytes the validator never signed)
 //@ func encodeTime
-//@ abstract
+//@ ensures (let b1 = (t.Unix() != 0 ? bzcat(bzcat(bzmk(), encodeFieldNumberAndTyp3(1, 0)), encodeUvarint(wrapu64(t.Unix()))) : bzmk()) in
+//@         result == (t.Nanosecond() != 0 ? bzcat(bzcat(b1, encodeFieldNumberAndTyp3(2, 0)), encodeUvarint(t.Nanosecond())) : b1))
+// C12: the result relayed to the bridge is the stored result, field by field (the bridge re-encodes it and hashes it as
+// the IAVL leaf value: any swapped field changes the leaf hash)
+//@ func transformResult
+//@ ensures result.ClientID == r.ClientID && result.OracleScriptID == r.OracleScriptID && result.Params == r.Calldata && result.AskCount == r.AskCount
+//@ ensures result.MinCount == r.MinCount && result.RequestID == r.RequestID && result.AnsCount == r.AnsCount
+//@ ensures result.RequestTime == wrapu64(r.RequestTime) && result.ResolveTime == wrapu64(r.ResolveTime) && result.ResolveStatus == wrapu8(r.ResolveStatus) && result.Result == r.Result
 
 // C12: signatures are taken from, and canonical vote bytes rebuilt for, exactly the precommits FOR THE BLOCK
 // (BlockIDFlagCommit): absent and nil votes are skipped, they are neither relayed nor allowed to fail the proof;
